@@ -52,12 +52,12 @@ PROPERTIES = {
     ),
     'C07': dict(
         units=['u_seg'],
-        finders=['find_segmentation'],
-        level_text="Narrow claim: deductive proof (Verus/Z3) that SegmentationIter::next yields consecutive, non-empty, non-overlapping pieces that stay inside the segmented range, cuts only at positions where a known selection begins or ends (never at an empty milestone entry) or at the end of the range, skips no such boundary, and terminates. The rest of C07 (exact / case-insensitive / regex search, split, trim) compares against str and regex library behaviour on UTF-8 bytes, which no contract within reach can express, and is NOT claimed.",
+        finders=['find_segmentation', 'find_text_ops'],
+        level_text="Narrow claim: deductive proof (Verus/Z3) that SegmentationIter::next yields consecutive, non-empty, non-overlapping pieces that stay inside the segmented range, cuts only at positions where a known selection begins or ends (never at an empty milestone entry) or at the end of the range, skips no such boundary, and terminates. The rest of C07 compares against str and regex library behaviour on UTF-8 bytes, which no contract within reach can express: find_text, find_text_nocase, split_text and trim_text (on a whole resource and inside every sub-selection) have a BOUNDED stand-in in the thorough tier (replay/finder.rs find_text_ops: every sub-range of 6 short texts over 1-4 byte codepoints, 7 needles / delimiters, 3 trim sets, compared with the plain string operation), labelled bounded and never counted as proved; regex search and find_text_sequence are NOT claimed.",
         level_note="Trusted: the positions iterator yields the keys of the position index in strictly increasing order; TextResource::position is a plain index lookup; textselection(&offset) succeeds exactly for accepted offsets (proved for the underlying functions in u_off).",
         design_ref='DESIGN.md §7.6',
         explanation="partition and boundary clauses on the real SegmentationIter::next with the iterator and resource accessors stubbed",
-        assumptions=["find_text / find_text_nocase / find_text_regex / split_text / trim_text are not covered by this check"],
+        assumptions=["find_text_regex / find_text_sequence are not covered; find_text / find_text_nocase / split_text / trim_text only by the bounded stand-in of the thorough tier"],
     ),
     'C02': dict(
         units=['u_store', 'u_cascade', 'u_map', 'u_dataset', 'u_ann', 'u_ann_closure'],
